@@ -49,7 +49,25 @@ def _chain(h, cls, n, d):
         chain.sample_probs = np.array(probs, dtype=dt)
         chain.chain_length = n
         h.covers(en.EnsembleSampler.get_parameter, en.EnsembleSampler.get_sample, en.EnsembleSampler.get_probabilities)
+    _injection_took_effect(h, cls, chain, rows)
     return chain, rows, probs
+
+
+def _injection_took_effect(h, cls, chain, rows):
+    """the units of this file place stored samples directly into the sampler.  If a re-organisation of the sampler keeps
+    its history somewhere else, the read-outs under test would not see the injected rows and every check below would fail
+    for a reason that has nothing to do with the property: a public accessor outside the read-outs under test (get_last)
+    must already return the last injected row, otherwise the harness is out of date (inconclusive, never a violation)"""
+    if cls == "ensemble" or not hasattr(chain, "get_last"):
+        return
+    last = np.asarray(chain.get_last()).ravel()
+    want = np.asarray(rows[-1]).ravel()
+    if h.sym:
+        ok = len(last) == len(want) and all(R(a).eq(R(b)) for a, b in zip(last, want))
+    else:
+        ok = len(last) == len(want) and bool(np.all(np.asarray(last, dtype=float) == np.asarray(want, dtype=float)))
+    if not ok:
+        raise mc.HarnessOutOfDate("the sampler does not read its stored history from the attributes this harness fills in")
 
 
 def _unchanged(h, chain, rows, probs, d, after):
